@@ -171,8 +171,12 @@ let rec last2 = function [x; _] -> x | _ :: l -> last2 l | [] -> failwith "short
    font value: the two day strings time.Format delivers, and the keys of
    glyf.Outlines.Tables *)
 let wctx_of_sx = function
-  | L [A "wctx"; L [A "days"; md; cd]; L (A "extra" :: tags)] ->
-    (sx_bytes md, sx_bytes cd, List.map sx_n tags)
+  | L [A "wctx"; L [A "days"; md; cd]; L (A "extra" :: tags); range; L [A "bbox"; lly; ury]] ->
+    let rg = (match range with
+      | A "-" -> None
+      | L [A "range"; lo; hi] -> Some (sx_z lo, sx_z hi)
+      | _ -> failwith "bad range") in
+    (sx_bytes md, sx_bytes cd, List.map sx_n tags, rg, sx_z lly, sx_z ury)
   | _ -> failwith "bad wctx"
 
 let sx_of_rec (r : nrec) : sx =
@@ -190,13 +194,16 @@ let () = main_loop (fun c ->
        else if in_range f && canonical f && f1 <> f then
          L [A "canonical-changed"; sx_of_font f1]
        else begin
-         let (mday, cday, extra) = wctx_of_sx (last2 rest) in
+         let (mday, cday, extra, range, lly, ury) = wctx_of_sx (last2 rest) in
+         let os2x = (match m_os2_derived_of f range lly ury with
+           | None -> A "-"
+           | Some x -> L [A "os2x"; az x.x_avg; az x.x_first; az x.x_last; az x.x_winasc; az x.x_windesc]) in
          let tags = L (A "tags" :: List.map an (m_written_tags t extra)) in
          let nametab =
            match m_name_table_ascii c01_name_appleBCP c01_name_msBCP f mday cday with
            | None -> A "-"
            | Some (recs, storage) -> L [A "nametab"; L (List.map sx_of_rec recs); astr storage] in
-         L [A "ok"; sx_of_tables_obs t; sx_of_font f1; tags; nametab]
+         L [A "ok"; sx_of_tables_obs t; sx_of_font f1; tags; nametab; os2x]
        end
      | Err -> A "err" | Panic -> A "panic" | OutOfFuel -> A "fuel")
   | A "merge" :: rest ->
